@@ -15,7 +15,12 @@ use std::{
 
 use log::{debug, trace};
 use memmap2::MmapMut;
+#[cfg(not(feature = "verif_hooks"))]
 use parking_lot::{Condvar, Mutex, RwLock, RwLockReadGuard, RwLockWriteGuard};
+#[cfg(feature = "verif_hooks")]
+use parking_lot::{Condvar, Mutex};
+#[cfg(feature = "verif_hooks")]
+use verif::{RwLock, RwLockReadGuard, RwLockWriteGuard};
 
 mod disk_usage;
 pub mod error;
@@ -28,6 +33,8 @@ mod region;
 mod region_metadata;
 mod region_state;
 mod regions;
+#[cfg(feature = "verif_hooks")]
+pub mod verif;
 
 pub use disk_usage::*;
 pub use error::*;
